@@ -499,6 +499,9 @@ def _same(a, b, nan_any=False):
         return a == b
     if type(a) is list:
         return len(a) == len(b) and all(_same(p, q, nan_any) for p, q in zip(a, b))
+    if type(a) is datetime.datetime:
+        # "timestamps to whole seconds": equality modulo the sub-second part
+        return a.replace(microsecond=0) == b.replace(microsecond=0)
     return a == b
 
 
@@ -564,7 +567,8 @@ def _expected(case):
         kw = dict(kw)  # the column's own length / precision / scale / element type are what the property names
     if v is None:
         return ("eq", None, False)
-    if t == "BOOLEAN" and type(v) is bool and r in ("native", "str", "bytes"):
+    if t == "BOOLEAN" and type(v) is bool and r in ("native", "str", "bytes", "word"):
+        # "word": x is a word (text or bytes), v says whether its upper-casing is a documented truthy word
         return ("eq", v, False)
     if t == "INTEGER" and type(v) is int and r in ("native", "str", "bytes", "pad", "padbytes"):
         nd = _ndigits(abs(v))
@@ -672,7 +676,8 @@ def oracle(case, obs):
     if "ok_class" in obs:
         return what + " returned a value of class " + obs["ok_class"]
     if exp[0] == "multiset":
-        if type(got) is not list or sorted(map(repr, got)) != sorted(map(repr, exp[1])) or not all(any(_same(g, w) for w in exp[1]) for g in got):
+        if type(got) is not list or len(got) != len(exp[1]) or not all(any(_same(g, w) for w in exp[1]) for g in got) \
+                or not all(any(_same(g, w) for g in got) for w in exp[1]):
             return what + " returned %s, expected the elements %s in some order" % (_short(got), _short(exp[1]))
         return None
     if not _same(got, exp[1], exp[2]):
